@@ -235,6 +235,7 @@ package leveldb
 // CompactionL0Trigger), the wait is answered at once and the writer would retry for ever while holding the write
 // lock, every later writer waiting behind it (F36).
 //@ ghost var gCompactionDue bool
+//@ ghost var gWaitFailed bool
 //@ func (*DB).flush$1
 //@   props C09 C10
 //@   safety off
@@ -244,6 +245,13 @@ package leveldb
 //@     ghost gCompactionDue = result
 //@   at before call (*DB).compTriggerWait#1
 //@     assert [C09,C10:a-writer-waits-for-a-table-compaction-only-when-one-is-due] gCompactionDue
+// ... and a wait that failed (the DB is closing, or in its persistent error state) ends the retrying: the writer
+// leaves with the error instead of asking again while it holds the write lock.
+//@   at entry
+//@     ghost gWaitFailed = false
+//@   at call (*DB).compTriggerWait#1
+//@     ghost gWaitFailed = result != nil
+//@   ensures [C09,C10:a-failed-wait-for-a-compaction-is-not-retried] gWaitFailed ==> !result
 //@   ensures [C09:a-retry-without-waiting-for-a-compaction-happens-only-once] (result && calls("(*DB).compTriggerWait") == old(calls("(*DB).compTriggerWait"))) ==> (delayed && !old(delayed))
 
 //@ func (*DB).writeLocked
